@@ -18,9 +18,9 @@ from aiocoap import Message, GET, PUT, NON, CON, error, resource
 PROP = "C18"
 LEVEL = "model_checking"
 RULE = ("E2: Context.shutdown() injected after every step of the default run (K=1) and of every one-deviation run (K=2; drop, "
-        "duplicate, reorder) of fourteen busy scenarios (among them an observation whose iterating consumer task has been cancelled, an observation whose first notification is block-wise and observations whose "
+        "duplicate, reorder) of sixteen busy scenarios (one next to a second bystander that is a server with a running handler and an observer; one with CON notifications acknowledged late; among them an observation whose iterating consumer task has been cancelled, an observation whose first notification is block-wise and observations whose "
         "consumer subscribes only after the shutdown), plain and with the loop stalling for 0.15 s / 3.5 s after the 1st..6th loop iteration "
-        "of the shutdown (timers due in between run late), followed by a full drain; distinct = distinct schedule")
+        "of the shutdown (timers due in between run late), plain also with a request submitted by another task after the 1st..4th loop iteration of the shutdown, followed by a full drain; distinct = distinct schedule")
 ASSUMPTIONS = [
     "SHUTDOWN_TIMEOUT = 3 s (numbers/constants.py documentation); EXCHANGE_LIFETIME = 247 s",
     "the bystander context lives in the same loop and talks to its own peer",
@@ -32,7 +32,9 @@ OCTX = ("2001:db8::b", 40000)    # bystander context
 OSRV = ("2001:db8::2", 5683)     # bystander's server
 
 SCENARIOS = ("await-ack", "await-separate", "bw-up", "bw-down", "obs-client", "obs-server", "backlog", "slow-handler", "slow-twice", "dedup-alive",
-             "obs-client-bw", "obs-client-late", "obs-client-late-plain", "obs-client-iter-gone")
+             "obs-client-bw", "obs-client-late", "obs-client-late-plain", "obs-client-iter-gone", "obs-server-lateack", "bystander-server")
+BSRV = ("2001:db8::b5", 5683)     # a second bystander: a *server* context with a handler running and an observer registered
+BPEER = ("2001:db8::b6", 40000)
 STALLS = [(j, dt) for j in (1, 2, 3, 4, 6) for dt in (0.15, 3.5)]   # the loop stalls for dt seconds after the j-th iteration of the shutdown
 
 
@@ -87,7 +89,7 @@ class ObsBlockServer(Peer):
 
 
 class ShutScenario(NetScenario):
-    names = {V: "V", PEER: "peer", OCTX: "O", OSRV: "osrv"}
+    names = {V: "V", PEER: "peer", OCTX: "O", OSRV: "osrv", BSRV: "B", BPEER: "bpeer"}
     menu = ("drop", "dup", "reorder")
     horizon = 320.0
     max_steps = 160
@@ -112,7 +114,7 @@ class ShutScenario(NetScenario):
         st.sent_at_return = None
         # --- the victim
         site = None
-        if kind in ("obs-server", "slow-handler", "slow-twice", "dedup-alive"):
+        if kind in ("obs-server", "slow-handler", "slow-twice", "dedup-alive", "obs-server-lateack"):
             site = resource.Site()
 
             class Slow(resource.Resource):
@@ -139,8 +141,10 @@ class ShutScenario(NetScenario):
             site.add_resource(["obs"], st.ob)
         st.v = w.add_context("V", *V, site=site)
         # --- peers of the victim
-        if kind in ("await-ack", "backlog"):
+        if kind in ("await-ack", "backlog", "bystander-server"):
             w.add_peer(Peer("peer", *PEER))
+        elif kind == "obs-server-lateack":
+            st.raw = w.add_peer(Peer("peer", *PEER))      # acknowledges nothing by itself
         elif kind == "await-separate":
             w.add_peer(AckOnly("peer", *PEER))
         elif kind == "bw-up":
@@ -156,6 +160,30 @@ class ShutScenario(NetScenario):
         # --- bystander
         st.o = w.add_context("O", *OCTX)
         w.add_peer(LateServer("osrv", *OSRV))
+        st.b = None
+        if kind == "bystander-server":
+            bsite = resource.Site()
+            st.b_log = []
+
+            class BSlow(resource.Resource):
+                async def render_get(self, request):
+                    st.b_log.append("start")
+                    try:
+                        await asyncio.sleep(0.5)
+                    except asyncio.CancelledError:
+                        st.b_log.append("cancelled")
+                        raise
+                    st.b_log.append("done")
+                    return Message(payload=b"bslow")
+
+            class BOb(resource.ObservableResource):
+                async def render_get(self, request):
+                    return Message(payload=b"bo")
+            st.bob = BOb()
+            bsite.add_resource(["slow"], BSlow())
+            bsite.add_resource(["obs"], st.bob)
+            st.b = w.add_context("B", *BSRV, site=bsite)
+            w.add_peer(RawClient("bpeer", *BPEER))
 
         def req(ctx, remote, **kw):
             m = Message(**kw)
@@ -164,7 +192,10 @@ class ShutScenario(NetScenario):
 
         def start(st):
             st.ofut = st.o.ctx.request(req(st.o, OSRV, code=GET, uri_path=["by"]), handle_blockwise=False).response
-            if kind == "await-ack" or kind == "await-separate":
+            if kind == "bystander-server":
+                st.world.emit(BPEER, BSRV, rc.encode((rc.CON, 1, 0x6001, b"\x21", [(11, b"slow")], b"")))
+                st.world.emit(BPEER, BSRV, rc.encode((rc.NON, 1, 0x6002, b"\x22", [(6, b""), (11, b"obs")], b"")))
+            if kind in ("await-ack", "await-separate", "bystander-server"):
                 st.futs.append(("r", st.v.ctx.request(req(st.v, PEER, code=GET, uri_path=["x"]), handle_blockwise=False).response))
             elif kind == "backlog":
                 for i in range(3):
@@ -194,7 +225,7 @@ class ShutScenario(NetScenario):
                 r = st.v.ctx.request(req(st.v, PEER, code=GET, uri_path=["o"], observe=0), **({"handle_blockwise": False} if kind.endswith("plain") else {}))
                 st.futs.append(("obs-first", r.response))
                 st.obsreq = r
-            elif kind == "obs-server":
+            elif kind in ("obs-server", "obs-server-lateack"):
                 st.world.emit(PEER, V, rc.encode((rc.CON, 1, 0x5001, b"\x0b", [(6, b""), (11, b"obs")], b"")))
             elif kind in ("slow-handler", "slow-twice"):
                 st.world.emit(PEER, V, rc.encode((rc.CON, 1, 0x5001, b"\x0b", [(11, b"slow")], b"")))
@@ -216,11 +247,32 @@ class ShutScenario(NetScenario):
         if kind == "obs-server":
             st.script.append(("change", lambda st: st.ob.updated_state()))
             st.script.append(("change", lambda st: st.ob.updated_state()))
+        if kind == "obs-server-lateack":
+            # CON notifications (the registration was CON) that the observer acknowledges late: the second waits behind the first,
+            # goes out when that is acknowledged, and is itself left unacknowledged
+            def ack_oldest(st):
+                mids = []
+                for d in st.world.sent:
+                    if d.src == V and d.dst == PEER and d.data[0] & 0x30 == 0x00 and d.data[1] >= 64:
+                        mid = (d.data[2] << 8) | d.data[3]
+                        if mid not in mids:
+                            mids.append(mid)
+                todo = [m_ for m_ in mids if m_ not in st.acked]
+                if todo:
+                    st.acked.add(todo[0])
+                    st.world.emit(PEER, V, rc.encode((rc.ACK, 0, todo[0], b"", [], b"")))
+            st.acked = set()
+            st.script.append(("change", lambda st: st.ob.updated_state()))
+            st.script.append(("change", lambda st: st.ob.updated_state()))
+            st.script.append(("ack oldest", ack_oldest))
+            st.script.append(("change", lambda st: st.ob.updated_state()))
+            st.script.append(("ack oldest", ack_oldest))
 
     # -- shutdown is the fault
     def faults(self, st):
         if st.shut_at is None and st.script_pos > 0:
-            return [("shutdown", 1)] + ([("shutdown/stall%d/%s" % (j, dt), 1) for j, dt in STALLS] if self.stalls else [])
+            return [("shutdown", 1)] + ([("shutdown/stall%d/%s" % (j, dt), 1) for j, dt in STALLS] if self.stalls else
+                                        [("shutdown/req%d" % j, 1) for j in (1, 2, 3, 4)])
         return []
 
     def apply_fault(self, st, label):
@@ -242,6 +294,17 @@ class ShutScenario(NetScenario):
         for n, f in st.pending_at_shut:
             f.add_done_callback(retry)
         st.shut_task = w.loop.create_task(st.v.ctx.shutdown())
+        if "/req" in label:
+            # another task of the application submits a request while the shutdown is under way (after its j-th loop iteration)
+            for i in range(int(label.split("/req")[1])):
+                if w.loop._ready:
+                    w.loop._run_once()
+            m = Message(code=GET, uri_path=["during"])
+            m.remote = st.v.remote(PEER)
+            try:
+                st.retries.append(st.v.ctx.request(m, handle_blockwise=False).response)
+            except error.Error:
+                pass       # refusing on the spot is fine as well
         if "/stall" in label:
             _, j, dt = label.split("/")
             for i in range(int(j[5:])):
@@ -319,6 +382,10 @@ class ShutScenario(NetScenario):
         if still > 0:
             st.violations.append(Violation("handler-not-cancelled", "every running handler has ended or seen CancelledError when shutdown returns",
                                            st.handler_log, "tokenmanager.py:shutdown", {}, key="handler"))
+        if st.b is not None:
+            st.b_sent_at_return = len([d for d in w.sent if d.src == BSRV])
+            st.bob.updated_state()
+            w.loop.settle()
         # a request submitted after shutdown fails at once with the shutdown error
         m = Message(code=GET, uri_path=["late"])
         m.remote = st.v.remote(PEER)
@@ -345,6 +412,14 @@ class ShutScenario(NetScenario):
         if not (f.done() and f.exception() is None and f.result().payload.startswith(b"osrv|by|")):
             st.violations.append(Violation("bystander-affected", "bystander's request completes with its response", repr(f),
                                            "protocol.py", {}, key="bystander"))
+        if st.b is not None and st.shut_done_at is not None:
+            # the other server context in the process: its handler ran to the end, its observer is still served
+            if "cancelled" in st.b_log or st.b_log.count("done") != 1:
+                st.violations.append(Violation("bystander-affected", "the other context's handler completes", st.b_log, "tokenmanager.py:shutdown", {}, key="bystander-handler"))
+            notes = [d for d in w.sent if d.src == BSRV][st.b_sent_at_return:]
+            if not any(d.data[1] == 69 and b"bo" in d.data for d in notes):
+                st.violations.append(Violation("bystander-affected", "the other context still notifies its observer", [repr(d) for d in notes],
+                                               "tokenmanager.py:shutdown", {}, key="bystander-observer"))
         obytes = [(d.src, d.dst, d.data) for d in w.sent if OCTX in (d.src, d.dst)]
         st.bystander_wire = core.digest(obytes)
 
